@@ -386,6 +386,9 @@ class X:
                 return ("(is_none %s)" % l if isinstance(op, ast.Is) else "(negb (is_none %s))" % l), "bool", bl
             if tl == "none":
                 return ("true" if isinstance(op, ast.Is) else "false"), "bool", bl
+            if isinstance(tl, tuple) and tl[0] in ("dict", "list", "wdict"):
+                # an attribute that the translator was told holds a container: never None
+                return ("false" if isinstance(op, ast.Is) else "true"), "bool", bl
             fail(e, "None test on %r" % (tl,))
         r, tr, br = self.tx(R, env)
         b = bl + br
@@ -623,6 +626,11 @@ class X:
             if ts[0] is None or (isinstance(ts[0], tuple) and ts[0][0] in ("list", "dict", "set")):
                 return "(py_len %s)" % cs[0], "int", b      # an unknown type is left to Coq's type checker
             fail(e, "len of %r" % (ts[0],))
+        if name == "enumerate" and len(e.args) == 1 and not e.keywords:
+            c, t, b = self.tx(e.args[0], env)
+            if not (isinstance(t, tuple) and t[0] == "list"):
+                fail(e, "enumerate of %r" % (t,))
+            return "(py_enumerate %s)" % c, ("list", ("tuple", ("int", t[1]))), b
         if name == "bool":
             c, b = self.truth(e.args[0], env)
             return c, "bool", b
@@ -1559,6 +1567,10 @@ TARGETS = [
         Fn("formula_rank", "py_PreOCF_formula_rank", [("formula", "form")], cls="PreOCF", ret="optint", state=RANKS,
            locals_={"min_rank": "optint"}),
         Fn("conditional_acceptance", "py_PreOCF_conditional_acceptance", [("conditional", "cond")], cls="PreOCF", ret="bool", state=RANKS),
+    ]),
+    dict(out="SrcCrep", file="inference/preocf.py", requires=["SrcCond"], funcs=[
+        Fn("c_vec2ocf", "py_RandomMinCRepPreOCF_c_vec2ocf", [("world", "world")], cls="RandomMinCRepPreOCF", ret="int",
+           state=[("@conditionals", "at_conditionals", ("dict", "cond")), ("@_impacts", "at_impacts", ("list", "int"))]),
     ]),
     dict(out="SrcOcfCustom", file="inference/preocf.py", requires=[], funcs=[
         Fn("rank_world", "py_CustomPreOCF_rank_world", [("world", "world"), ("force_calculation", "bool")], cls="CustomPreOCF", ret="int",
